@@ -218,22 +218,47 @@ func VC03_Time() {
 
 // Equals: reflexive, symmetric, never panics, fields built twice from equal inputs are equal.
 //
-//verif: prop=C03 bounds="Field.Equals over pairs from a 12-template menu incl. uncomparable dynamic types (slice-typed Stringer, Inline(Dict)), NaN floats/complex, errors, arrays, binary; payloads symbolic"
+//verif: prop=C03 bounds="Field.Equals over pairs from a 16-template menu incl. uncomparable dynamic types (slice-typed Stringer, Inline(Dict)), comparable structs/arrays that carry an uncomparable value behind an interface (Reflect, Error, Stringer payloads), NaN floats/complex, errors, arrays, binary; payloads symbolic; reflexivity, symmetry, and equality of two fields built separately from the same inputs"
 func VC03_Equals() {
-	mk := func(id string) Field {
-		switch vrt.Choice(id+".t", 12) {
+	memo := map[string]uint64{}
+	i64 := func(n string) int64 {
+		if v, ok := memo[n]; ok {
+			return int64(v)
+		}
+		v := vrt.Int64(n)
+		memo[n] = uint64(v)
+		return v
+	}
+	f64 := func(n string) float64 {
+		if v, ok := memo[n]; ok {
+			return math.Float64frombits(v)
+		}
+		v := vrt.Float64(n)
+		memo[n] = math.Float64bits(v)
+		return v
+	}
+	b1 := func(n string) byte {
+		if v, ok := memo[n]; ok {
+			return byte(v)
+		}
+		v := vrt.Byte(n)
+		memo[n] = uint64(v)
+		return v
+	}
+	build := func(id string, t int) Field {
+		switch t {
 		case 0:
-			return Int64("k", vrt.Int64(id+".i"))
+			return Int64("k", i64(id+".i"))
 		case 1:
-			return String("k", vrt.String(id+".s", 1))
+			return String("k", string([]byte{b1(id + ".s")}))
 		case 2:
 			vrt.Tag("payload=float64")
-			return Float64("k", vrt.Float64(id+".f"))
+			return Float64("k", f64(id+".f"))
 		case 3:
 			vrt.Tag("payload=complex128")
-			return Complex128("k", complex(vrt.Float64(id+".re"), 1))
+			return Complex128("k", complex(f64(id+".re"), 1))
 		case 4:
-			return Binary("k", vrt.Bytes(id+".b", 1))
+			return Binary("k", []byte{b1(id + ".b")})
 		case 5:
 			return Error(errors.New("x"))
 		case 6:
@@ -245,22 +270,68 @@ func VC03_Equals() {
 		case 8:
 			return Ints("k", []int{1, 2})
 		case 9:
-			return Object("k", vObj{vrt.Int64(id + ".o")})
+			return Object("k", vObj{i64(id + ".o")})
 		case 10:
 			vrt.Tag("payload=reflect-nan")
-			return Reflect("k", vrt.Float64(id+".rf"))
+			return Reflect("k", f64(id+".rf"))
+		case 11:
+			return Time("k", time.Unix(i64(id+".sec")%1000, 0))
+		case 12:
+			vrt.Tag("payload=reflect-struct-with-uncomparable-inside")
+			return Reflect("k", vBoxed{Tag: "t", V: []int{1}})
+		case 13:
+			vrt.Tag("payload=error-struct-with-uncomparable-inside")
+			return NamedError("k", vOpErr{Op: "read", Cause: vErrList{errors.New("a")}})
+		case 14:
+			vrt.Tag("payload=stringer-array-with-uncomparable-inside")
+			return Stringer("k", vBoxedArr{vSliceStringer{"z"}})
 		default:
-			return Time("k", time.Unix(vrt.Int64(id+".sec")%1000, 0))
+			vrt.Tag("payload=object-struct-with-map-inside")
+			return Object("k", vObjBoxed{V: map[string]int{"a": 1}})
 		}
 	}
-	a := mk("a")
-	if vrt.Choice("self", 2) == 0 {
+	ta := vrt.Choice("a.t", 16)
+	a := build("a", ta)
+	switch vrt.Choice("mode", 3) {
+	case 0:
 		vrt.Assert("reflexive", a.Equals(a))
-		return
+	case 1:
+		// a second field built separately from the same inputs
+		a2 := build("a", ta)
+		if ta == 5 || ta == 13 {
+			return // errors.New yields a fresh pointer each time: distinct identities are not "the same input"
+		}
+		vrt.Assert("same-inputs-equal", a.Equals(a2) && a2.Equals(a))
+	default:
+		b := build("b", vrt.Choice("b.t", 16))
+		vrt.Assert("symmetric", a.Equals(b) == b.Equals(a))
 	}
-	b := mk("b")
-	vrt.Assert("symmetric", a.Equals(b) == b.Equals(a))
 }
+
+// vBoxed is comparable as a type, but == panics when V holds a slice.
+type vBoxed struct {
+	Tag string
+	V   interface{}
+}
+
+type vErrList []error
+
+func (l vErrList) Error() string { return fmt.Sprint(len(l)) }
+
+type vOpErr struct {
+	Op    string
+	Cause error
+}
+
+func (e vOpErr) Error() string { return e.Op + ": " + e.Cause.Error() }
+
+type vBoxedArr [1]fmt.Stringer
+
+func (a vBoxedArr) String() string { return a[0].String() }
+
+type vObjBoxed struct{ V interface{} }
+
+func (o vObjBoxed) MarshalLogObject(enc zapcore.ObjectEncoder) error { return nil }
 
 func vSameVal(a, b interface{}) bool {
 	switch x := a.(type) {
